@@ -725,6 +725,15 @@ func (w *World) DrawAction(rt *rapid.T, p *Profile) (Action, string) {
 			seq = append(seq, Action{Op: "scan", Flag: true})
 			return Action{Op: "seq", Seq: seq}, "bulkAnd/" + what
 		}
+	case "pinAsg": // the ASG is pinned (min == max) at or just below the group's node count while utilisation is low
+		if n := len(w.GroupNodeNames(g)); n > 0 {
+			pin := n - rapid.IntRange(0, 1).Draw(rt, "below")
+			if pin < 1 {
+				pin = 1
+			}
+			tp, _ := w.drawTargetPods(rt, g, "zero", "belowL", "midLU")
+			return Action{Op: "seq", Seq: []Action{{Op: "asgEdit", Group: g, N: pin, M: pin}, tp, {Op: "scan", Flag: true}}}, "pinAsg"
+		}
 	case "replaceAndReap": // a node is reaped, the ASG replaces it one for one, the replacement is reaped
 		names := w.GroupNodeNames(g)
 		if len(names) > 0 {
